@@ -29,6 +29,9 @@ VLOSS = "ixai/utils/validators/loss.py"
 MULTI = "ixai/utils/tracker/multi_value.py"
 
 M = [
+    ("C18", "D16-set-ordered-feature-subset", INC, "features_not_in_s = list(self.feature_names)  # ordered: a set would iterate in string-hash order", "features_not_in_s = set(self.feature_names)"),
+    ("C09", "D17-probability-kept-in-callers-type", GEO, "self.constant_probability = float(constant_probability)", "self.constant_probability = constant_probability"),
+    ("C01", "D18-numpy-scalar-losses-not-unboxed", BASE, "    return loss.item() if isinstance(loss, np.generic) else loss\n", "    return loss\n"),
     # ---- the pre-repair behaviour of D11-D15, kept as mutants -------------------------------------------
     ("C06", "D11-subset-walked-once-per-sample", MARG, "        feature_subset = list(feature_subset)\n        predictions = []\n", "        predictions = []\n"),
     ("C19", "D11-tree-subset-walked-once-per-sample", TREEI, "        feature_subset = list(feature_subset)\n        predictions = []\n", "        predictions = []\n"),
@@ -67,7 +70,7 @@ M = [
      "                marginal_contributions[permutation_chain[\n                    (permutation_chain.index(feature) + 1) % len(permutation_chain)]] = marginal_contribution\n"),
     ("C03", "complement-not-taken", INC, "                    feature_subset=features_not_in_s,\n",
      "                    feature_subset=set(self.feature_names) - features_not_in_s,\n"),
-    ("C03", "mean-of-losses", INC, "                y = _get_mean_model_output(predictions)\n                feature_loss = self._loss_function(y_i, y)\n",
+    ("C03", "mean-of-losses", INC, "                y = _get_mean_model_output(predictions)\n                feature_loss = _loss_value(self._loss_function(y_i, y))\n",
      "                feature_loss = sum(self._loss_function(y_i, p) for p in predictions) / len(predictions)\n"),
     ("C03", "unnormalised-marginal-prediction", INC, "marginal_prediction = marginal_prediction_tracker.get_normalized()",
      "marginal_prediction = marginal_prediction_tracker.get()"),
@@ -101,8 +104,8 @@ M = [
      "        if not force_explain and self.seen_samples % self.interval_length != 0:\n",
      "        if (not force_explain or self.seen_samples < self.interval_length // 2) and self.seen_samples % self.interval_length != 0:\n"),
     ("C05", "original-mode-last-feature-dropped", BATCH,
-     "                y = _get_mean_model_output(predictions)\n                feature_loss = self._loss_function(y_i, y)\n                marginal_contribution = loss_previous - feature_loss\n                sage_values[feature] += marginal_contribution\n                loss_previous = feature_loss\n            n_data = n\n        self.importance_values = {feature: sage_value / n_data\n                                  for feature, sage_value in sage_values.items()}\n        return self.importance_values\n",
-     "                y = _get_mean_model_output(predictions)\n                feature_loss = self._loss_function(y_i, y)\n                marginal_contribution = loss_previous - feature_loss\n                if len(x_s) < len(self.feature_names) or len(x_s) == 1 or n % 4:\n                    sage_values[feature] += marginal_contribution\n                loss_previous = feature_loss\n            n_data = n\n        self.importance_values = {feature: sage_value / n_data\n                                  for feature, sage_value in sage_values.items()}\n        return self.importance_values\n",
+     "                y = _get_mean_model_output(predictions)\n                feature_loss = _loss_value(self._loss_function(y_i, y))\n                marginal_contribution = loss_previous - feature_loss\n                sage_values[feature] += marginal_contribution\n                loss_previous = feature_loss\n            n_data = n\n        self.importance_values = {feature: sage_value / n_data\n                                  for feature, sage_value in sage_values.items()}\n        return self.importance_values\n",
+     "                y = _get_mean_model_output(predictions)\n                feature_loss = _loss_value(self._loss_function(y_i, y))\n                marginal_contribution = loss_previous - feature_loss\n                if len(x_s) < len(self.feature_names) or len(x_s) == 1 or n % 4:\n                    sage_values[feature] += marginal_contribution\n                loss_previous = feature_loss\n            n_data = n\n        self.importance_values = {feature: sage_value / n_data\n                                  for feature, sage_value in sage_values.items()}\n        return self.importance_values\n",
      "last"),
     # ---- C06 ---------------------------------------------------------------------------------------
     ("C06", "merge-order-swapped", MARG, "prediction = self.model_function({**x_i, **sampled_values})",
@@ -168,8 +171,8 @@ M = [
     # ---- C17 ---------------------------------------------------------------------------------------
     ("C17", "pfi-commit-inside-loop", PFI, "                pfi[feature] = avg_loss - original_loss\n",
      "                pfi[feature] = avg_loss - original_loss\n                if len(pfi) == len(self.feature_names):\n                    self._importance_trackers.update(pfi)\n                    self._importance_trackers.N -= 1\n"),
-    ("C17", "sage-model-loss-committed-early", INC, "            model_loss = self._loss_function(y_i, y_i_pred)\n",
-     "            model_loss = self._loss_function(y_i, y_i_pred)\n            self._model_loss_tracker.update(model_loss)\n            _committed = True\n"),
+    ("C17", "sage-model-loss-committed-early", INC, "            model_loss = _loss_value(self._loss_function(y_i, y_i_pred))\n",
+     "            model_loss = _loss_value(self._loss_function(y_i, y_i_pred))\n            self._model_loss_tracker.update(model_loss)\n            _committed = True\n"),
     ("C17", "storage-after-commit", INC,
      ["        if update_storage:\n            self._storage.update(x_i, y_i)\n        # the estimates are only touched once every callback (model, loss, imputer, storage) has returned\n        if marginal_contributions is not None:\n",
       "        self.seen_samples += 1\n        return self.importance_values"],
@@ -183,8 +186,8 @@ M = [
      "    def _sample_product_marginals(features, feature_subset):\n        sampled_features = {}\n        if len(features) > 3:\n            random.Random().random()\n            import os as _os\n            random.random() if _os.urandom(1)[0] % 2 else None\n"),
     ("C18", "time-dependent-slot", GEO, "                rand_idx = random.randrange(self.size)\n",
      "                import time as _time\n                rand_idx = (random.randrange(self.size) + int(_time.time() * 1000)) % self.size\n"),
-    ("C18", "id-ordered-feature-iteration", INC, "            features_not_in_s = set(self.feature_names)\n",
-     "            features_not_in_s = set(self.feature_names)\n            if id(x_i) % 3 == 0:\n                random.random() if False else __import__('random').random()\n"),
+    ("C18", "id-ordered-feature-iteration", INC, "            features_not_in_s = list(self.feature_names)  # ordered: a set would iterate in string-hash order\n",
+     "            features_not_in_s = list(self.feature_names)  # ordered: a set would iterate in string-hash order\n            if id(x_i) % 3 == 0:\n                random.random() if False else __import__('random').random()\n"),
     # ---- C19 ---------------------------------------------------------------------------------------
     ("C19", "stale-reservoirs-kept", TREES, "        self._delete_outdated_reservoirs(feature_name, root_node)\n        data_reservoir[leaf_id].update(x)\n",
      "        if len(data_reservoir) > 2 * self._leaf_reservoir_length:\n            self._delete_outdated_reservoirs(feature_name, root_node)\n        data_reservoir[leaf_id].update(x)\n"),
